@@ -101,7 +101,25 @@ func c14URLAttr2(elem, attr, p, a, mid, b string) string {
 	})
 }
 
+// c14URLRange: `<elem attr="P{{range .L}}{{.}}M{{end}}">` with L = [x, y], through the history machinery so that the
+// model runs the same template; M always contains "~~", which no item contains, so the oracle can cut the value.
+func c14URLRangeHist(elem, attr, p, mid, x, y string) (string, string) {
+	text := "<" + elem + " " + attr + `="` + p + `{{range .L}}{{.}}` + mid + `{{end}}">`
+	if elem == "script" {
+		text += "</script>"
+	}
+	hb := newHistBuilder()
+	hb.add(Step{Op: "new", H: 0, Name: "root"})
+	if hb.add(Step{Op: "parse", H: 0, Text: text}) == "" {
+		return "", ""
+	}
+	d := &Val{Kind: "m", Keys: []string{"L"}, M: map[string]*Val{"L": {Kind: "l", L: []*Val{{Kind: "s", S: x}, {Kind: "s", S: y}}}}}
+	r := hb.add(Step{Op: "exec", H: 0, Data: d})
+	return hb.hist(), r
+}
+
 func init() {
+	replayers["tmpl.urlrange"] = func(a []string) string { return lastOf(runLinesStr(a[6])) }
 	replayers["tmpl.urlattr2"] = func(a []string) string { return c14URLAttr2(a[0], a[1], a[2], a[3], a[4], a[5]) }
 	replayers["util.query"] = func(a []string) string { return c14Query(a[0]) }
 	replayers["util.norm"] = func(a []string) string { return c14Norm(a[0]) }
@@ -202,6 +220,13 @@ func genC14(c *Ctx) {
 		for _, t := range c14Templates {
 			r := c14URLAttr2(t[0], t[1], p, a, mid, b)
 			c.emit("tmpl.urlattr2", []string{t[0], t[1], p, a, mid, b}, r, strings.HasPrefix(r, "ok") && (needsEsc(a) || needsEsc(b)), class+"-"+t[0])
+			if c.rng.Intn(3) == 0 {
+				m2 := pick(c, []string{"?~~", "~~?a=", "#~~", "/~~?q=", "~~/", "~~"})
+				x, y := strings.ReplaceAll(a, "~~", "~"), strings.ReplaceAll(b, "~~", "~")
+				if h, rr := c14URLRangeHist(t[0], t[1], p, m2, x, y); h != "" {
+					c.emit("tmpl.urlrange", []string{t[0], t[1], p, m2, x, y, h}, rr, strings.HasPrefix(rr, "ok") && needsEsc(y), "range-"+t[0])
+				}
+			}
 		}
 	}
 	// ---- several actions in one attribute value (each is validated with the static text before it only)
